@@ -43,6 +43,10 @@ func run(prop string) {
 			runUDPAssociationChurn()
 			return
 		}
+		if prop == "C04" && simrt.Chance(1, 8, "transit-fallback") {
+			runTransitFallback()
+			return
+		}
 		runTunnels(prop)
 	default:
 		panic("W-mesh does not decide " + prop)
